@@ -12,3 +12,23 @@ macro_rules! harness {
         }
     };
 }
+
+/// `assert!` as the harness bodies use it: the same assertion, preceded under Kani by a
+/// reachability query for its negation. On a tree where the assertion holds that query is
+/// unsatisfiable and changes nothing; where it fails, Kani's concrete playback prints an input for
+/// it (Kani 0.68 does not always print one for the failed assertion itself), which the driver
+/// then replays natively.
+macro_rules! assert {
+    ($c:expr, $($m:tt)+) => {{
+        let __holds: bool = $c;
+        #[cfg(kani)]
+        kani::cover!(!__holds, "violation witness");
+        ::core::assert!(__holds, $($m)+);
+    }};
+    ($c:expr) => {{
+        let __holds: bool = $c;
+        #[cfg(kani)]
+        kani::cover!(!__holds, "violation witness");
+        ::core::assert!(__holds);
+    }};
+}
